@@ -213,6 +213,13 @@ def run(ctx):
                     continue
             pls.append(p)
         reader_case(ctx, pls)
+    # stubs whose frame checksum has a chosen value (all zero, all ones, leading zero byte ...)
+    for _ in range(ctx.n(20, 400)):
+        for t in streams.STEER_TARGETS[:8]:
+            base = streams.rand_unknown_payload(rng, rng.randint(2, 30))
+            p = streams.steer_payload(base, t)
+            check(ctx, p, str((p[0] << 4) | (p[1] >> 4)), False, False)
+            ctx.hit("steered_checksum_stubs")
     # a complete valid frame used AS a payload (numbers 0xD30..0xD33): must stay an opaque stub
     for _ in range(ctx.n(2000, 8000)):
         inner = streams.rand_defined_payload(rng) if rng.random() < 0.5 else streams.rand_unknown_payload(rng, rng.randint(2, 40))
